@@ -11,7 +11,7 @@ RULE = ('structured byte strings (mode-shaped alphabets mixed at run boundaries,
         'symbol lists (default, all, random subsets, pairs, singletons) x mode subsets (all 63, half of them without ASCII) x '
         'macros x FNC1; each case is encoded, its data codewords decoded and its rendered symbol decoded; '
         'non-trivial = encoding succeeded on a non-empty input; plus three deterministic families: capacity boundaries complete for the small symbols (every alphabet x every length delta x every tail kind, with/without FNC1 start, with the single symbol of that capacity alone in the list), codec constants (Base256 runs of 248..252 / 499..501 / 1554..1555 bytes, every alphabet border byte in every context), every non-empty mode subset x {FNC1, ECI, macro, none} prefix; long inputs of one kind (lengths around 16, 64, 256, 1024) with one byte of another kind at the power-of-two offsets; and the regression corpus of minimised former witnesses')
-THEOREMS = 'C01_symbol_layer, C01_routes_agree, C01_ascii_plan_roundtrip, C01_ascii_only_roundtrip, C01_base256_only_roundtrip, C01_ab_plan_roundtrip, C01_ascii_base256_roundtrip, C01_macro_ab_roundtrip, C01_fnc1_ab_roundtrip, C01_ax_plan_roundtrip, C01_ax_modes_roundtrip, C01_macro_ax_roundtrip, C01_fnc1_ax_roundtrip, C01_ac_plan_roundtrip, C01_ac_modes_roundtrip, C01_macro_ac_roundtrip, C01_fnc1_ac_roundtrip, C01_mixed_plan_roundtrip, C01_mixed_plan_test, C01_mixed_plan_macro, C01_mixed_plan_fnc1'
+THEOREMS = 'C01_symbol_layer, C01_routes_agree, C01_ascii_plan_roundtrip, C01_ascii_only_roundtrip, C01_base256_only_roundtrip, C01_ab_plan_roundtrip, C01_ascii_base256_roundtrip, C01_macro_ab_roundtrip, C01_fnc1_ab_roundtrip, C01_ax_plan_roundtrip, C01_ax_modes_roundtrip, C01_macro_ax_roundtrip, C01_fnc1_ax_roundtrip, C01_ac_plan_roundtrip, C01_ac_modes_roundtrip, C01_macro_ac_roundtrip, C01_fnc1_ac_roundtrip, C01_mixed_plan_roundtrip, C01_mixed_plan_test, C01_mixed_plan_macro, C01_mixed_plan_fnc1, C01_mixed_plan_default_options'
 ASSUMPTIONS = ['the sort order of remove_hopeless_cases is taken from the implementation (hook trace) and validated as a sorted permutation']
 
 
